@@ -150,3 +150,87 @@ theorem scatter_identity (bs : CData) (classes : Nat) (i j : Nat) (hlab : ∀ p 
   ring
 
 end SharkVerif.Trainers
+
+namespace SharkVerif.Trainers
+
+/-! ### weighted LDA -/
+
+theorem rsum_class_split' {α : Type} (l : List α) (cls : α → Nat) (classes : Nat) (f : α → Rat)
+    (hlab : ∀ p ∈ l, cls p < classes) :
+    rsum classes (fun c => lsum l (fun p => if cls p = c then f p else 0)) = lsum l f := by
+  rw [← lsum_rsum_comm]
+  apply lsum_congr
+  intro p hp
+  have : ∀ c, (if cls p = c then f p else 0) = (if cls p = c then (fun _ => f p) c else 0) := fun c => rfl
+  rw [rsum_congr (fun c _ => this c), rsum_ite_eq]
+  simp [hlab p hp]
+
+theorem lsum_by_class' {α : Type} (l : List α) (cls : α → Nat) (classes : Nat) (f : α → Rat) (g : Nat → Rat)
+    (hlab : ∀ p ∈ l, cls p < classes) :
+    lsum l (fun p => f p * g (cls p))
+      = rsum classes (fun c => g c * lsum l (fun p => if cls p = c then f p else 0)) := by
+  rw [← rsum_class_split' l cls classes (fun p => f p * g (cls p)) hlab]
+  apply rsum_congr; intro c _
+  rw [← lsum_mul_left]
+  apply lsum_congr; intro p _
+  by_cases h : cls p = c
+  · simp [h]; ring
+  · simp [h]
+
+/-- weighted within-class scatter `Σ_i w_i (x_i − m_{c_i})(x_i − m_{c_i})ᵀ` -/
+def wWithinScatter (bs : WCData) (i j : Nat) : Rat :=
+  bsum bs fun p => p.2.2 * ((p.1.at i - wldaMean bs p.2.1 i) * (p.1.at j - wldaMean bs p.2.1 j))
+
+theorem wclass_part_eq (bs : WCData) (c k : Nat) (hw : ∀ p ∈ bs.flatten, 0 < p.2.2) :
+    classWeight bs c * wldaMean bs c k = bsum bs (fun p => if p.2.1 = c then p.2.2 * p.1.at k else 0) := by
+  unfold wldaMean
+  by_cases h0 : classWeight bs c = 0
+  · rw [h0, zero_mul]
+    unfold classWeight at h0
+    rw [bsum_eq_flatten] at h0 ⊢
+    have hz := lsum_eq_zero_of_nonneg (f := fun p : Vec × Nat × Rat => if p.2.1 = c then p.2.2 else 0)
+      (fun p hp => by by_cases h : p.2.1 = c <;> simp [h, (hw p hp).le]) h0
+    symm
+    rw [lsum_congr (g := fun _ => 0) (fun p hp => by
+      have := hz p hp
+      by_cases h : p.2.1 = c
+      · simp [h] at this; exact absurd this (hw p hp).ne'
+      · simp [h])]
+    exact lsum_zero _
+  · field_simp
+
+theorem wscatter_identity (bs : WCData) (classes : Nat) (i j : Nat)
+    (hlab : ∀ p ∈ bs.flatten, p.2.1 < classes) (hw : ∀ p ∈ bs.flatten, 0 < p.2.2) :
+    bsum bs (fun p => p.2.2 * (p.1.at i * p.1.at j))
+        - rsum classes (fun c => classWeight bs c * (wldaMean bs c i * wldaMean bs c j))
+      = wWithinScatter bs i j := by
+  unfold wWithinScatter
+  have hcp : ∀ c k, classWeight bs c * wldaMean bs c k
+      = lsum bs.flatten (fun p => if p.2.1 = c then p.2.2 * p.1.at k else 0) := by
+    intro c k; rw [wclass_part_eq bs c k hw, bsum_eq_flatten]
+  have hcc : ∀ c, classWeight bs c = lsum bs.flatten (fun p => if p.2.1 = c then p.2.2 else 0) := by
+    intro c; unfold classWeight; rw [bsum_eq_flatten]
+  simp only [bsum_eq_flatten]
+  have hexp : ∀ p : Vec × Nat × Rat,
+      p.2.2 * ((p.1.at i - wldaMean bs p.2.1 i) * (p.1.at j - wldaMean bs p.2.1 j))
+      = p.2.2 * (p.1.at i * p.1.at j) - p.2.2 * p.1.at i * wldaMean bs p.2.1 j
+        - p.2.2 * p.1.at j * wldaMean bs p.2.1 i
+        + p.2.2 * (wldaMean bs p.2.1 i * wldaMean bs p.2.1 j) := by intro p; ring
+  rw [lsum_congr (fun p _ => hexp p), lsum_add, lsum_sub, lsum_sub,
+    lsum_by_class' bs.flatten (fun p => p.2.1) classes (fun p => p.2.2 * p.1.at i) (fun c => wldaMean bs c j) hlab,
+    lsum_by_class' bs.flatten (fun p => p.2.1) classes (fun p => p.2.2 * p.1.at j) (fun c => wldaMean bs c i) hlab,
+    lsum_by_class' bs.flatten (fun p => p.2.1) classes (fun p => p.2.2)
+      (fun c => wldaMean bs c i * wldaMean bs c j) hlab]
+  have e1 : rsum classes (fun c => wldaMean bs c j * lsum bs.flatten (fun p => if p.2.1 = c then p.2.2 * p.1.at i else 0))
+      = rsum classes (fun c => classWeight bs c * (wldaMean bs c i * wldaMean bs c j)) :=
+    rsum_congr (fun c _ => by rw [← hcp c i]; ring)
+  have e2 : rsum classes (fun c => wldaMean bs c i * lsum bs.flatten (fun p => if p.2.1 = c then p.2.2 * p.1.at j else 0))
+      = rsum classes (fun c => classWeight bs c * (wldaMean bs c i * wldaMean bs c j)) :=
+    rsum_congr (fun c _ => by rw [← hcp c j]; ring)
+  have e3 : rsum classes (fun c => wldaMean bs c i * wldaMean bs c j * lsum bs.flatten (fun p => if p.2.1 = c then p.2.2 else 0))
+      = rsum classes (fun c => classWeight bs c * (wldaMean bs c i * wldaMean bs c j)) :=
+    rsum_congr (fun c _ => by rw [← hcc c]; ring)
+  rw [e1, e2, e3]
+  ring
+
+end SharkVerif.Trainers
